@@ -232,10 +232,24 @@ def rule_prov(ctx, rep):
             else:
                 r.ok(inst, where, ",".join("%s.%s" % (s[0].split("::")[-1], s[1]) for s in sorted(srcs)) or "span source not a DSL field")
     # join2: `end` must be fed from an `.end`
-    jb = ctx.prog.get(SPAN + "::join2")
-    rj = rep.rule("R-C05-join", "SourceSpan::join/join2 build `start` from a start and `end` from an end", floor=2)
+    rule_join(ctx, rep)
+
+
+def rule_join(ctx, rep, rid="R-C05-join"):
+    rj = rep.rule(rid, "SourceSpan::join/join2 build `start` from a start, `end` from an end and keep the file id of their input "
+                       "(a joined span without file id belongs to no file: the editor drops the diagnostic)", floor=2)
     for name in ("join", "join2"):
         for b in ctx.prog.get(SPAN + "::" + name):
+            aggs = [s for i, j, s in b.all_stmts() if s[0] == "=" and s[2][0] == "agg" and isinstance(s[2][1], dict) and s[2][1].get("adt") == SPAN]
+            if not aggs:
+                # built by some other constructor: only with_file_id(..) of an input's id keeps the file
+                wf = [c for c in b.calls() if (c.callee or "").endswith("SourceSpan::with_file_id")]
+                if wf:
+                    rj.ok("SourceSpan::%s" % name, "%s:%d" % (b.f["file"], b.f["line"]), "file id re-attached with with_file_id")
+                else:
+                    rj.finding("SourceSpan::%s|file-id-lost" % name, "%s:%d" % (b.f["file"], b.f["line"]),
+                               "the joined span is not assembled from its inputs (no SourceSpan {..} and no with_file_id): it carries FileId::default()")
+                continue
             for i, j, s in b.all_stmts():
                 if s[0] == "=" and s[2][0] == "agg" and s[2][1].get("adt") == SPAN:
                     ops = dict(zip(s[2][1]["fields"], s[2][2]))
@@ -246,8 +260,18 @@ def rule_prov(ctx, rep):
                         fl = [x[2] for x in rt[1] if isinstance(x, list) and x[0] == "f"] if rt else []
                         if fl and fl[-1] in ("start", "end") and fl[-1] != fld:
                             probs.append("`%s` is fed from a `.%s`" % (fld, fl[-1]))
+                    fo = ops.get("file_id")
+                    fp = op_place(fo) if fo else None
+                    okf = False
+                    if fp is not None:
+                        d = b.single_def(b.root(fp)[0])
+                        src = op_place(d[2].args[0]) if d and d[0] == "call" and (d[2].callee or d[2].u or "").split("::")[-1] == "clone" and d[2].args else fp
+                        rt = b.root(src) if src else None
+                        okf = bool(rt) and any(isinstance(x, list) and x[0] == "f" and x[2] == "file_id" for x in rt[1])
+                    if not okf:
+                        probs.append("`file_id` is not taken from an input span")
                     if probs:
-                        rj.finding("SourceSpan::%s|%s" % (name, ";".join(probs)), loc_str(b.f, s[3]), "; ".join(probs) + ": joined labels stop before the last construct's spelling")
+                        rj.finding("SourceSpan::%s|%s" % (name, ";".join(probs)), loc_str(b.f, s[3]), "; ".join(probs) + ": joined labels do not cover first..last construct of their own file")
                     else:
                         rj.ok("SourceSpan::%s" % name, loc_str(b.f, s[3]))
 
@@ -475,12 +499,12 @@ def _label_reads(b):
     return out
 
 
-def rule_pair(ctx, rep):
+def rule_pair(ctx, rep, rid="R-C05-pair"):
     """Byte offsets mean nothing without the file they index.  Wherever the front ends (cli.rs, lsp_project.rs) consume a Label's
     offsets, the same function also consumes that label's file_id - or, when the label is a parameter, every caller reads the
     file_id of the very label it passes.  Pairing a label's offsets with some other label's file puts the underline into the wrong
     file (or panics when slicing the wrong text)."""
-    r = rep.rule("R-C05-pair", "a label's byte offsets are only ever combined with that label's own file: every front-end function reading "
+    r = rep.rule(rid, "a label's byte offsets are only ever combined with that label's own file: every front-end function reading "
                                "Label.location also reads the same label's file_id (itself, or each caller for the label it passes)", floor=2,
                  floor_what="front-end functions reading Label.location")
     n = 0
